@@ -49,6 +49,9 @@ CHECKS = {
             H("c04.VH_dns_rules", {"L": 14, "NQ": 1}, {"L": 14, "NQ": 2}, opts=C04_OPTS, covers=["match returned"], validate=False),
             H("c04.VH_http_ishttp", {"L": 24}, {"L": 64}, opts=C04_OPTS, covers=["match returned"]),
             H("c04.VH_http_match", {"L": 24}, {"L": 64}, opts=C04_OPTS, covers=["match returned"]),
+            # the matching buffer itself must stay bounded whatever a matcher keeps asking for (shared with C05)
+            H("c05.VH_tcp", {"ROUNDS": 7, "TIMEOUTS": 1, "L": 12000, "FLOOD": 1}, {"ROUNDS": 8, "TIMEOUTS": 2, "L": 14000, "FLOOD": 1}, variant="flood",
+              opts=C04_OPTS, covers=["buffer exhausted"], validate=False, weight=2),
         ],
         "level_text": "bounded model checking: every matcher's real Match is executed symbolically on an arbitrary byte string up to the per-matcher length bound, over TCP- or UDP-like local addresses, in default and filtered configurations; every Go run-time check (index, slice, nil, divide, make size) and every make([]byte,n) above 128 KiB is an SMT query; counterexamples are replayed against the real build",
         "level_note": "inputs longer than the stated bound are outside the claim; third-party back ends (miekg/dns Unpack/Len are havoc stubs; net/http, hpack, quic-go, the PROXY-protocol library parser are not executed); regexp semantics via an NFA simulation of regexp/syntax; TLS and QUIC matchers run unprovisioned (no sub-matchers)",
@@ -147,6 +150,7 @@ CHECKS["C01"] = {
         H("c01.VH_read_step", {}, {}, covers=["served from the buffer", "matching mode, buffer consumed", "served from the network"]),
         H("c01.VH_prefetch_step", {}, {}, covers=["buffer full", "read in place", "read through a pooled chunk"]),
         H("c01.VH_match_step", {}, {}, covers=["matcher read bytes"]),
+        H("c01.VH_wrap_step", {}, {}, covers=["unread bytes at Wrap time", "drained at Wrap time"]),
         H("c01.VH_step_rec", {"READS": 2}, {"READS": 3}, covers=["recorder ran", "bytes buffered at handler time", "more than 4096 bytes buffered", "read to EOF"], weight=3),
         H("c01.VH_step_wrap", {"READS": 2}, {"READS": 3}, covers=["wrapping handler ran", "recorder ran", "more than 4096 bytes buffered"], weight=4),
         H("c01.VH_step_throttle", {"READS": 2}, {"READS": 3}, covers=["recorder ran", "more than 4096 bytes buffered"], weight=3),
@@ -205,6 +209,24 @@ CHECKS["C06"] = {
     "assumptions": ["the connection under test is a Connection in matching mode pre-loaded with the bytes; the underlying conn asserts it is never read"],
     "outside": ["messages longer than the per-matcher bound", "HTTP requests accepted by the heuristic (net/http)", "DNS", "QUIC"],
     "bounds": {"quick": "ssh 8, xmpp 54, postgres 14, socks4 10, socks5 8, proxy_protocol 14, regexp 7, tls 52, rdp 16, winbox 40, openvpn 58, http 16", "thorough": "+2..6 bytes each, openvpn 90"},
+}
+
+_c14 = ["well-formed", "violating"]
+CHECKS["C14"] = {
+    "harnesses": [
+        H("c14.VH_ssh", {}, {}, covers=_c14), H("c14.VH_xmpp", {}, {}, covers=_c14), H("c14.VH_proxyproto", {}, {}, covers=_c14),
+        H("c14.VH_socks4", {}, {}, covers=_c14), H("c14.VH_socks4_filter", {}, {}, covers=_c14),
+        H("c14.VH_socks5", {}, {}, covers=_c14), H("c14.VH_socks5_filter", {}, {}, covers=_c14),
+        H("c14.VH_regexp", {}, {}, covers=_c14), H("c14.VH_wireguard", {}, {}, covers=_c14), H("c14.VH_wireguard_zero", {}, {}, covers=_c14),
+        H("c14.VH_postgres", {}, {}, covers=_c14 + ["startup message"], weight=2), H("c14.VH_ishttp", {}, {}, covers=_c14, weight=2),
+        H("c14.VH_not", {}, {}, covers=_c14 + ["undecided"]), H("c14.VH_ip", {}, {}, covers=_c14),
+        H("c14.VH_clock", {}, {}, covers=_c14, validate=False), H("c14.VH_dns_rules", {}, {}, covers=_c14, validate=False, native_replay=False),
+    ],
+    "level_text": "bounded model checking against reference predicates written from the wire definitions (not from the matcher code): for every complete first message within the bound the real Match must accept every well-formed message that satisfies the configured filters and reject every message that violates a mandatory field or a filter; regions the definitions leave open are don't-care",
+    "level_note": "decided for ssh, xmpp, proxy_protocol, socks4 (commands/ports/CIDRs), socks5 (method lists), regexp (cross-checks the engine's NFA model against a direct byte predicate), wireguard (+zero filter), postgres (SSLRequest, v3 startup, version and length violations), isHttp, not, remote_ip/local_ip (concrete v4/v6/v4-mapped addresses at CIDR boundaries), clock (symbolic second of day, 4 window/zone configurations incl. swap and 24:00), dns rule combination (class/type/name symbolic over a finite set; the third-party wire parser is replaced). Not decided: openvpn, winbox, rdp field predicates (their parsers are covered for safety/round-trip by C04/C18 and for fragmentation by C06), http beyond the request-line heuristic, quic",
+    "assumptions": ["dns.Msg.Unpack/Len replaced by a scripted result (one question, class/type/name from a finite set)", "clock: wrap time pinned through the replacer key l4.conn.wrap_time"],
+    "outside": ["openvpn / winbox / rdp reference predicates", "net/http, quic-go, miekg/dns wire parsing", "time-zone database (only fixed offsets and UTC)"],
+    "bounds": {"quick": "message lengths: ssh 8, xmpp 54, proxy_protocol 16, socks4 10, socks5 8, regexp 6, wireguard 150, postgres 14, isHttp 24", "thorough": "same"},
 }
 
 NOT_APPLICABLE = {
